@@ -238,7 +238,7 @@ theorem attrTargetsF_reach (h : Heap) : ∀ n d i k, k ∈ attrTargetsF n h d i 
 
 theorem attrTargets_live {h : Heap} (hinv : Inv h) {d i : Nat} (hl : live h i = true) :
     ∀ k, k ∈ attrTargets h d i → live h k = true :=
-  fun k hk => live_of_reach hinv hl (attrTargetsF_reach h _ d i k hk)
+  fun k hk => live_of_reach hinv hl (attrTargetsF_reach h _ d i k (of_mem_dedup hk))
 
 theorem lazyCovered_spec {h : Heap} {ts : List Nat} (hc : lazyCovered h ts = true) :
     ∀ m, m ∈ ts → (h.node m).lazy = true → ∃ k, k ∈ ts ∧ (h.node k).lazy = false ∧ Reach h m k := by
@@ -340,8 +340,8 @@ theorem lazyCovered_of_inv {h : Heap} (hinv : Inv h) (d i : Nat) : lazyCovered h
   cases hz : (h.node m).lazy with
   | false => simp
   | true =>
-    obtain ⟨k, hk, hkz, hr⟩ := covered_aux hinv.ordered hinv.nonEmptyLazy (i + 1) d i (by omega) m hm hz
+    obtain ⟨k, hk, hkz, hr⟩ := covered_aux hinv.ordered hinv.nonEmptyLazy (i + 1) d i (by omega) m (of_mem_dedup hm) hz
     simp only [Bool.not_true, Bool.false_or, List.any_eq_true, Bool.and_eq_true, Bool.not_eq_true']
-    exact ⟨k, hk, hkz, hr⟩
+    exact ⟨k, mem_dedup hk, hkz, hr⟩
 
 end TdVerif.C06
